@@ -77,6 +77,7 @@ static Scen g_cur; static std::mutex g_cur_m; static std::atomic<bool> g_in_call
 template <class F>
 static bool attempt(Result& R, Call* c, const Scen& sc, F&& call, bool expect_status_only = false) {
     { std::lock_guard<std::mutex> l(g_cur_m); g_cur = sc; }
+    set_crash_context(sc.construct + "." + site_name[sc.site]);
     g_in_call = true;
     int caught = 0, foreign = 0; bool returned = false;
     try { call(); returned = true; }
@@ -150,6 +151,20 @@ static void c_reduce(Result& R, Rng& r, int site, int nthrows, bool det, bool fn
             if (b.sum != (long)n * (n - 1) / 2) R.violation("c03." + sc.construct + ".wrong-result", "reduction result wrong without any exception", "{}");
         }
     });
+}
+struct SBody {                                // imperative scan body (counted copies)
+    Call* c; long sum = 0; Counted cnt;
+    explicit SBody(Call* c_) : c(c_), cnt(c_) {}
+    SBody(SBody& o, tbb::split) : c(o.c), cnt(o.cnt) { maybe_throw(c, S_BODY_SPLIT); }
+    template <class Tag> void operator()(const tbb::blocked_range<int>& r, Tag) { Live l(c); maybe_throw(c, S_BODY); for (int i = r.begin(); i < r.end(); ++i) sum += i; }
+    void reverse_join(SBody& a) { sum = a.sum + sum; }
+    void assign(SBody& b) { sum = b.sum; }
+};
+static void c_scan_body(Result& R, Rng& r, int site, int nthrows) {
+    Call* c = new_call(); int n = 50 + (int)r.below(3000), g = 1 + (int)r.below(30);
+    c->fire[site] = pick_positions(r, std::max(2, n / g), nthrows);
+    Scen sc{ "scan_body", site, nthrows, "n=" + std::to_string(n) };
+    attempt(R, c, sc, [&] { SBody b(c); tbb::parallel_scan(tbb::blocked_range<int>(0, n, g), b); });
 }
 static void c_scan(Result& R, Rng& r, int site, int nthrows) {
     Call* c = new_call(); int n = 50 + (int)r.below(3000), g = 1 + (int)r.below(30);
@@ -296,7 +311,7 @@ int main(int argc, char** argv) {
             case 1: c_pfor(R, r, r.chance(1, 2) ? S_RANGE_COPY : S_RANGE_SPLIT, nthrows); break;
             case 2: { int s = (int)r.pick(std::vector<int>{ S_BODY, S_BODY_SPLIT, S_RANGE_COPY, S_RANGE_SPLIT }); c_reduce(R, r, s, nthrows, r.chance(1, 2), false); break; }
             case 3: c_reduce(R, r, S_BODY, nthrows, r.chance(1, 2), true); break;
-            case 4: c_scan(R, r, r.chance(1, 3) ? S_COMBINE : S_BODY, nthrows); break;
+            case 4: if (r.chance(1, 3)) c_scan_body(R, r, r.chance(1, 4) ? S_BODY_SPLIT : S_BODY, nthrows); else c_scan(R, r, r.chance(1, 3) ? S_COMBINE : S_BODY, nthrows); break;
             case 5: c_foreach(R, r, r.chance(1, 3) ? S_FEED : S_BODY, nthrows); break;
             case 6: c_invoke(R, r, S_BODY, nthrows); break;
             case 7: c_sort(R, r, S_CMP, nthrows); break;
